@@ -9,7 +9,7 @@ from __future__ import annotations
 import random
 
 
-from .common import ElemError, SrcError, SubmitError, install_future_wrappers, install_singlelane_wrappers, strip
+from .common import ElemError, SrcError, SubmitError, install_future_wrappers, install_singlelane_wrappers, strip, unpp
 
 
 # ---------------------------------------------------------------------------------------------------------------
@@ -36,7 +36,10 @@ def gen_scenarios(rnd: random.Random, count, max_n=6, max_cap=3, max_conc=3, all
         if variant == 'fifo' and not srcfail and n and rnd.random() < 0.25:
             cand = [i for i in range(1, n + 1) if i not in prefail]
             subfail = rnd.choice(cand) if cand else 0
+        okidx = [i for i in range(1, n + 1) if i not in fail and i not in prefail]
+        retobj = sorted(rnd.sample(okidx, min(len(okidx), rnd.choice([0, 0, 1, 2])))) if okidx else []
         out.append({'n': n, 'cap': cap, 'conc': conc, 'retexc': rnd.random() < 0.5, 'fail': fail, 'subfail': subfail,
+                    'retobj': retobj,
                     'prefail': prefail, 'srcfail': srcfail, 'srcbase': srcbase, 'maybreak': brk is not None,
                     'mode': 'sync', 'variant': variant, 'retx': rnd.random() < 0.6, 'break_at': brk,
                     'usepre': bool(prefail) or rnd.random() < 0.3,
@@ -99,7 +102,10 @@ def _make_scenario(sc):
 
     gates = sc.get('_gates')
 
+    retobj = set(sc.get('retobj') or [])
+
     def work(x):
+        x = unpp(x)
         detsched.emit('WStart', i=x)
         detsched.checkpoint('work')
         if gates is not None:
@@ -112,6 +118,10 @@ def _make_scenario(sc):
             detsched.emit('WFinish', i=x, kind='err')
             raise ElemError(x)
         detsched.emit('WFinish', i=x, kind='ok')
+        if x in retobj:
+            # the function RETURNS an exception object (e.g. a stage that passes upstream failures on as values): that is
+            # its result for this element, not a failure
+            return ElemError(x, 'returned')
         return ('r', x)
 
     work._verif_work = True
@@ -120,12 +130,14 @@ def _make_scenario(sc):
         if x in prefail:
             detsched.emit('PreFail', i=x)
             raise ElemError(x, 'pre')
-        return x
+        return ('pp', x)      # a TRANSFORMING preprocessor: `func` gets the transformed value, return_x the original element
 
     usepre = sc.get('usepre') or bool(prefail)
     retx, retexc, brk = sc['retx'], sc['retexc'], sc['break_at']
 
     def classify_y(y):
+        if isinstance(y, ElemError) and y.site == 'returned':
+            return y.i, 'ok'
         if isinstance(y, ElemError):
             return y.i, 'err'
         if isinstance(y, tuple) and len(y) == 2 and y[0] == 'r':
@@ -151,6 +163,7 @@ def _make_scenario(sc):
                     break
                 if retx:
                     x, y = v
+                    x = x if isinstance(x, int) else -1      # paired with its own ORIGINAL input
                 else:
                     x, y = 0, v
                 yi, kind = classify_y(y)
@@ -187,9 +200,9 @@ def _make_scenario(sc):
         def root():
             with ThreadPoolExecutor(sc['conc']) as ex:
                 def func(x):
-                    if x == sc.get('subfail', 0):
-                        detsched.emit('SubFail', i=x)
-                        raise SubmitError(x)
+                    if unpp(x) == sc.get('subfail', 0):
+                        detsched.emit('SubFail', i=unpp(x))
+                        raise SubmitError(unpp(x))
                     return ex.submit(work, x, loud_exception=False)
 
                 gen = fifo_stream(Src(), func, capacity=sc['cap'], return_x=retx, return_exceptions=retexc,
